@@ -3,11 +3,17 @@
 
   Locks: `X` = `RetryExecutor._lock`, `F(f)` = `RetryFuture._me_lock` of future f.  One action = one section:
     submit f            submit_retry:   `_append_job(RetryJob(…, attempt 0, when = now))`                        [X]
-    submitNow j         `_submit_now`:  pop j; if f is done stop; `delegate.submit`; append the in-flight job   [F(f), X]
+    submitNow j         `_submit_now`, first half: pop j [X]; if f is done stop; `delegate.submit` (X NOT held)         [F(f)]
                         (the job was selected by `_get_next_job`, the regenerated kernel K2: `Ready`/`pickOk` below is
                         exactly K2's post-condition, proved in Proofs/Retry/K2.lean; a selected job has no delegate and is
                         never mutated afterwards, so selection and hand-over are merged — the only thing that can happen
                         in between is that a cancel pops it, and then f is done)
+    submitApp           `_submit_now`, second half: append the in-flight job [X]; F(f) is released afterwards           [F(f)]
+                        Between the two halves the future has NO job in `_jobs` and the executor lock is free (since the
+                        fix e0c2b1e in /repo: the delegate's submit() may block, or run the callable - and nested submits,
+                        done-callbacks of other futures - inline); what excludes a `cancel()` of f in that window is F(f),
+                        i.e. `holdsF`.  The delegate future may already be done when the job is appended (`ddone` before
+                        `submitApp`); its callback is attached only after F(f) is released.
     discard j           worker: a job carrying `stop_retry`: pop it, `copy_future(old_delegate, future)`
     ddone d c           the delegate future d becomes done (c = it was cancelled)
     cbCancelled d       `_delegate_callback`, delegate cancelled: pop the job, `_me_delegate_cancelled()`
@@ -61,6 +67,7 @@ structure St where
   delCancelled : List Nat := []
   done : List Nat := []                  -- futures in a terminal state
   cancelling : List (Nat × CSt) := []    -- cancel() calls in progress (they hold F(f))
+  submitting : Option Job := none        -- `_submit_now` between its pop and its append: the in-flight job it will append
   decs : List (Nat × Dec) := []          -- callbacks between eval_policy and their section
   -- ghosts
   submitted : List Nat := []             -- futures handed out by submit()
@@ -75,6 +82,7 @@ deriving Repr
 inductive Act
   | submit (f : Nat)
   | submitNow (j : Job)
+  | submitApp
   | discard (j : Job)
   | ddone (d : Nat) (cancelled : Bool)
   | cbCancelled (d : Nat)
@@ -87,7 +95,11 @@ inductive Act
   | tick (t : Nat)
 deriving DecidableEq, Repr
 
-def holdsF (s : St) (f : Nat) : Bool := s.cancelling.any (fun p => p.1 == f)
+/-- a `cancel()` call on f is in progress (`_me_cancelling`) -/
+def cancellingF (s : St) (f : Nat) : Bool := s.cancelling.any (fun p => p.1 == f)
+
+/-- some thread holds F(f): a `cancel()` in progress, or the submit thread inside `_submit_now` -/
+def holdsF (s : St) (f : Nat) : Bool := cancellingF s f || s.submitting.any (fun j => j.fut == f)
 
 def jobOfDel (s : St) (d : Nat) : Option Job := s.jobs.find? (fun j => j.del == some d)
 
@@ -99,14 +111,18 @@ def step (s : St) : Act → Option St
       some { s with jobs := s.jobs ++ [⟨f, 0, s.now, none, false, none⟩], submitted := s.submitted ++ [f], qGauge := s.qGauge + 1 }
   | .submitNow j =>
       -- selected by K2: no delegate, not stopped, due
-      if j ∈ s.jobs ∧ j.del = none ∧ j.stop = false ∧ j.whenT ≤ s.now ∧ holdsF s j.fut = false then
+      if j ∈ s.jobs ∧ j.del = none ∧ j.stop = false ∧ j.whenT ≤ s.now ∧ holdsF s j.fut = false ∧ s.submitting = none then
         if j.fut ∈ s.done then some { s with jobs := s.jobs.erase j, qGauge := s.qGauge - 1 }
         else
           let d := s.nextDel
-          some { s with jobs := s.jobs.erase j ++ [⟨j.fut, j.attempt + 1, 0, some d, false, none⟩],
+          some { s with jobs := s.jobs.erase j, submitting := some ⟨j.fut, j.attempt + 1, 0, some d, false, none⟩,
                         nextDel := d + 1, delFut := s.delFut ++ [(d, j.fut)],
-                        submits := s.submits ++ [(j.fut, j.attempt + 1, s.now)], qGauge := s.qGauge - 1 + 1 }
+                        submits := s.submits ++ [(j.fut, j.attempt + 1, s.now)], qGauge := s.qGauge - 1 }
       else none
+  | .submitApp =>
+      match s.submitting with
+      | some nj => some { s with jobs := s.jobs ++ [nj], submitting := none, qGauge := s.qGauge + 1 }
+      | none => none
   | .discard j =>
       if j ∈ s.jobs ∧ j.del = none ∧ j.stop = true then
         some { s with jobs := s.jobs.erase j, done := if j.fut ∈ s.done then s.done else s.done ++ [j.fut], qGauge := s.qGauge - 1 }
@@ -122,7 +138,7 @@ def step (s : St) : Act → Option St
           if d ∈ s.delCancelled then
             -- `_me_delegate_cancelled`: nothing to do while our own cancel() is in progress or when already done
             some { s with jobs := s.jobs.erase j,
-                          done := if holdsF s j.fut || decide (j.fut ∈ s.done) then s.done else s.done ++ [j.fut],
+                          done := if cancellingF s j.fut || decide (j.fut ∈ s.done) then s.done else s.done ++ [j.fut],
                           qGauge := s.qGauge - 1 }
           else none
       | none => none
